@@ -23,6 +23,8 @@ Require Import V.Proofs.BroadcastInv.
 Require Import V.Proofs.BroadcastRefine.
 Require Import V.Proofs.LossyProofs.
 Require Import V.Proofs.C08Proofs.
+Require Import V.Model.BroadcastThreads.
+Require Import V.Proofs.BroadcastThreadsProofs.
 Open Scope Z_scope.
 
 (* K1: the layout constants the model uses are the ones the compiler produced *)
@@ -130,6 +132,88 @@ Theorem C08_oracle_seq : forall cap k m hv c0 pre h,
   holds_seq cap c0 pre h (map show_obs (run_history m W64 hv cap c0 pre h)) = true.
 Proof. intros cap k m hv c0 pre h Hc Hk. exact (oracle_seq_model cap k Hc Hk m W64 hv c0 pre h). Qed.
 Print Assumptions C08_oracle_seq.
+
+(* ---------------------------------------------------------------- concurrent part
+   One transmitter thread || one copying receiver thread (Model/BroadcastThreads.v), every interleaving of
+   their shared-memory accesses (a schedule is any list of thread ids; the receiver never writes the buffer).
+
+   Transmitter side of the seqlock: whatever the transmitter is in the middle of, the tail counter is the
+   end of the completed records, the tail-intent counter is not below it, and every completed record at
+   position p with  intent <= p + cap  is intact in memory - i.e. any overwrite of a record is preceded by
+   an intent > p + cap. *)
+Theorem C08_seqlock_writer : forall cap k c0 mm t ch,
+  cap = 2 ^ k -> 5 <= k <= 30 -> tinv cap c0 mm t ch ->
+  get64 mm (tail_idx cap) = c_tail ch /\ c_tail ch <= get64 mm (intent_idx cap) /\
+  (forall e, In e (c_log ch) -> get64 mm (intent_idx cap) <= e_pos e + cap -> intact cap mm e).
+Proof. intros cap k c0 mm t ch Hc Hk. exact (tinv_facts cap k Hc Hk c0 mm t ch). Qed.
+Print Assumptions C08_seqlock_writer.
+
+(* ... this holds initially and is kept by every step of the transmitter machine; the completed records only
+   grow (next_ch appends the record when the tail is published) and the intent never decreases *)
+Theorem C08_seqlock_writer_step : forall cap k c0 mm t ch t' mm' ev,
+  cap = 2 ^ k -> 5 <= k <= 30 -> tinv cap c0 mm t ch -> tx_step cap mm t = Some (t', mm', ev) ->
+  tinv cap c0 mm' t' (next_ch cap ch t) /\ (exists es, c_log (next_ch cap ch t) = c_log ch ++ es) /\
+  get64 mm (intent_idx cap) <= get64 mm' (intent_idx cap).
+Proof. intros cap k c0 mm t ch t' mm' ev Hc Hk. exact (tinv_step cap k Hc Hk c0 mm t ch t' mm' ev). Qed.
+Print Assumptions C08_seqlock_writer_step.
+
+(* collapse: the transmitter machine run through one message is BroadcastTransmitter::transmit of Model/Broadcast.v *)
+Theorem C08_collapse_transmit : forall cap k mm0 ty bs m,
+  cap = 2 ^ k -> 5 <= k <= 30 ->
+  0 <= get64 mm0 (tail_idx cap) /\ get64 mm0 (tail_idx cap) mod 8 = 0 /\ get64 mm0 (tail_idx cap) + 2 * cap < 2 ^ 62 ->
+  Z.of_nat (length bs) <= cap / 8 -> in_i32 ty = true -> (ty <? 1) = false ->
+  transmit m cap mm0 ty bs = Ok (tx_final cap mm0 ty bs) /\
+  forall pc rest done, tx_pc_ok cap mm0 bs pc ->
+    match tx_step cap (tx_mem_at cap mm0 ty bs pc) {| t_pc := pc; t_todo := (ty, bs) :: rest; t_done := done |} with
+    | Some (t', mm', _) =>
+        match pc with
+        | TTail _ _ => t' = {| t_pc := TIdle; t_todo := rest; t_done := done + 1 |} /\ mm' = tx_final cap mm0 ty bs
+        | _ => t_todo t' = (ty, bs) :: rest /\ t_done t' = done /\ pc_rank pc < pc_rank (t_pc t') /\
+               tx_pc_ok cap mm0 bs (t_pc t') /\ mm' = tx_mem_at cap mm0 ty bs (t_pc t')
+        end
+    | None => False
+    end.
+Proof.
+  intros cap k mm0 ty bs m Hc Hk HT Hl Hty Hty1. split.
+  - exact (transmit_eq cap k Hc Hk mm0 ty bs HT Hl Hty m Hty1).
+  - exact (tx_step_at cap k Hc Hk mm0 ty bs Hty).
+Qed.
+Print Assumptions C08_collapse_transmit.
+
+(* C08_seqlock, as far as it is proved (full statement: for every schedule, every message handed to the
+   handler is byte-identical to one transmitted message, in transmission order, and a skipped message is
+   preceded by an UnableToKeepUp report):
+   for EVERY schedule, if every receive_next so far left the receiver's cursor on a record of the stream
+   (ghost flag g_ok, checked at the moment receive_next commits its fields), then every message handed to
+   the handler is byte-identical - type and bytes - to one of the transmitted messages, never a mixture:
+   the header words and the bytes were read from a record that the final validate proves was not
+   overwritten before the last of these reads.  The first component says the ghost-instrumented run is
+   the model's run_schedule.
+   Missing: (1) receive_next itself uses a length word read after its only validate (Agrona's algorithm):
+   a receiver lapped between that validate and the read computes cursor / next_record from stale bytes,
+   so g_ok is an assumption, not a consequence (class `lap-inside-receive-next`, see docs/reports/C08.md);
+   (2) order and loss-reporting for concurrent runs are checked by the oracle on every explored schedule
+   but proved only for sequential histories (C08_order, C08_overrun). *)
+Theorem C08_seqlock_partial : forall cap k m hv c0 pre msgs nrecv sched,
+  cap = 2 ^ k -> 5 <= k <= 30 -> conc_ok cap c0 pre msgs ->
+  let g := grun cap m hv (ginit cap c0 pre msgs nrecv) sched in
+  g_s g = run_schedule m W64 hv cap (init_cstate cap c0 pre msgs nrecv) sched /\
+  (g_ok g = true ->
+   Forall (fun res => match res with RMsg ty bs => In (ty, bs) (transmitted_pre cap pre ++ msgs) | _ => True end)
+          (r_out (c_rx (g_s g)))).
+Proof. intros cap k m hv c0 pre msgs nrecv sched Hc Hk. exact (seqlock_delivery cap k Hc Hk m hv c0 pre msgs nrecv sched). Qed.
+Print Assumptions C08_seqlock_partial.
+
+(* non-vacuity: a schedule in which the receiver is pre-empted inside its first receive while the transmitter
+   laps it; every commit was genuine, the receive reports UnableToKeepUp (repaired code) *)
+Example C08_seqlock_example :
+  let pre := [(3847, payload 900 0)] in
+  let msgs := [(5, payload 10 4); (1, payload 11 4); (3844, payload 12 0); (3845, payload 13 4)] in
+  let sched := [1; 1; 0; 0; 0; 0; 0; 0; 0; 0; 0; 0; 0; 0; 0; 0; 0; 0; 0; 0; 0; 0; 0; 0; 0; 0; 0; 0; 0; 0; 0; 0; 1; 1; 1; 1; 1; 1; 1; 1; 1; 1; 1; 1; 1; 1; 1; 1] in
+  let g := grun 32 Debug true (ginit 32 1099511627792 pre msgs 3) sched in
+  g_ok g = true /\ rev (r_out (c_rx (g_s g))) = [RErr UnableToKeepUp; RErr UnableToKeepUp; RNone] /\
+  r_end (c_rx (g_s g)) = RLive.
+Proof. vm_compute. repeat split. Qed.
 
 (* the hex rendering used to transport observations loses nothing *)
 Theorem C08_hex_injective : forall a b, bytes_ok a -> bytes_ok b -> hex a = hex b -> a = b.
